@@ -190,6 +190,45 @@ Theorem C15_reloader_follows_history :
 Proof. exact follows_history. Qed.
 Print Assumptions C15_reloader_follows_history.
 
+(* The refresh thread as a whole (Model/Reloader.v `init_file`, `sleeps`).
+   (1) `init_file` starts the thread exactly for a readable, parsable document WITH a refresh rate (zero is a rate),
+       and the thread starts from that very document: its text, mtime, configuration and rate; nothing else starts one. *)
+Theorem C15_init_file_starts_thread_iff_rate :
+  forall (cfg : Type) (parse : text -> option (cfg * option N)) f,
+    match init_file cfg parse f with
+    | None => read f = None \/ exists t, read f = Some t /\ parse t = None
+    | Some (c, None) => exists t, read f = Some t /\ parse t = Some (c, None)
+    | Some (c, Some l) =>
+        exists t rate, read f = Some t /\ parse t = Some (c, Some rate) /\
+          l_rate l = rate /\ l_running l = true /\ r_text (l_st l) = t /\ r_mtime (l_st l) = stat f /\
+          r_active (l_st l) = c /\ r_nset (l_st l) = 0%nat
+    end.
+Proof. exact init_file_spec. Qed.
+Print Assumptions C15_init_file_starts_thread_iff_rate.
+
+(* (2) For EVERY loop state and history: the k-th interval the thread sleeps is the rate the loop holds after k polls,
+       as long as it is running; a stopped thread never sleeps (hence never polls) again. *)
+Theorem C15_sleeps_are_the_loop_rate :
+  forall (cfg : Type) (parse : text -> option (cfg * option N)) h l k,
+    nth_error (sleeps cfg parse l h) k =
+    if Nat.leb k (length h) && l_running (Reloader.run cfg parse l (firstn k h))
+    then Some (l_rate (Reloader.run cfg parse l (firstn k h))) else None.
+Proof. exact sleeps_spec. Qed.
+Print Assumptions C15_sleeps_are_the_loop_rate.
+
+(* (3) End to end, for every honest history after `init_file` on version (m0, t0): the k-th interval slept is the
+       refresh rate of the LAST GOOD version among the first k observations - a failed poll (deleted, unreadable,
+       unparsable file) neither changes it nor ends the polling; a version without a rate ends it for good. *)
+Theorem C15_thread_sleeps_last_good_rate :
+  forall (cfg : Type) (parse : text -> option (cfg * option N)) m0 t0 a0 rate0 h l,
+    init_file cfg parse (File m0 t0) = Some (a0, Some l) -> l_rate l = rate0 -> honest m0 (Some t0) h ->
+    forall k, (k <= length h)%nat ->
+      nth_error (sleeps cfg parse l h) k =
+      if existsb (stops cfg parse) (firstn k h) then None
+      else Some (snd (last_good cfg parse (a0, rate0) (upto_stop cfg parse (firstn k h)))).
+Proof. exact thread_sleeps_last_good_rate. Qed.
+Print Assumptions C15_thread_sleeps_last_good_rate.
+
 (* ------------------------------ non-vacuity ------------------------------ *)
 Local Open Scope N_scope.
 Definition exA : tcfg :=
@@ -242,6 +281,21 @@ Example C15_example_reloader :
   map (fun k => r_active (l_st (Reloader.run N ex_parse (init_loop N 1 [1] 10 30 0) (firstn k h))))
       [1; 2; 3; 4; 5; 6; 7; 8]%nat = [20; 20; 20; 20; 20; 10; 30; 30].
 Proof. vm_compute. repeat split; congruence. Qed.
+
+(* init_file on version 1 (rate 30), then: rate change to 5 / touch / syntax error / deletion / back to 30 / a version
+   without a rate: the thread sleeps 30, 5, 5, 5, 5, 30 and then never again; a document with rate 0 starts a thread
+   that sleeps 0; a document without a rate starts none *)
+Example C15_example_thread :
+  let h := [File 2 [2]; File 3 [2]; File 4 [9]; Missing; File 6 [1]; File 7 [3]; File 8 [2]] in
+  match init_file N ex_parse (File 1 [1]) with
+  | Some (10, Some l) => honest 1 (Some [1]) h /\ sleeps N ex_parse l h = [30; 5; 5; 5; 5; 30]
+  | _ => False
+  end /\
+  (exists l, init_file N (fun t => match t with [4] => Some (40, Some 0) | _ => None end) (File 1 [4]) = Some (40, Some l)
+             /\ sleeps N (fun t => match t with [4] => Some (40, Some 0) | _ => None end) l [Missing] = [0; 0]) /\
+  init_file N ex_parse (File 1 [3]) = Some (30, None) /\
+  init_file N ex_parse (File 1 [9]) = None /\ init_file N ex_parse Missing = None.
+Proof. vm_compute. repeat split; try congruence. eexists. split; reflexivity. Qed.
 
 Example C15_example_changed :
   changed N (init_loop N 1 [1] 10 30 0) 2 [2] /\ bad N ex_parse (File 4 [9]).
